@@ -170,7 +170,10 @@ class NMAP(Application, discriminator="nmap"):
             target_ip_address = [target_ip_address]
         ip_addresses: List[IPV4Address] = []
         for ip_address in target_ip_address:
-            if isinstance(ip_address, IPv4Network):
+            if isinstance(ip_address, IPv4Network) and ip_address.prefixlen == 32:
+                # a single address of a mixed list of addresses and networks arrives as a /32 network
+                ip_addresses.append(ip_address.network_address)
+            elif isinstance(ip_address, IPv4Network):
                 ip_addresses += [
                     ip
                     for ip in ip_address.hosts()
